@@ -1256,3 +1256,118 @@ func VH04e_burst() {
 	verif.Assert(e2 == mangos.ErrProtoState, lab+"/reply-delivered-twice")
 	sock.Close()
 }
+
+// VH04f_cycles: R request/reply exchanges in a row on one REQ socket or context
+// with two peers, each exchange disturbed according to one of a few periodic
+// patterns: undisturbed; the carrying connection is lost (the request must be
+// re-sent to the other peer at once) and a new peer connects; the retry timer
+// fires once before the reply (a second transmission, not sooner than the retry
+// time after the first). In every round -- the fifth like the first -- the
+// request is (re)transmitted unchanged under one id, ids of different rounds
+// differ, the reply of the peer holding the request is delivered exactly once,
+// a late reply of an earlier round never is, and no retry timer survives the
+// reply.
+func VH04f_cycles() {
+	R := verif.Param("R", 6)
+	lab := "C04/cycles"
+	sock := vp.New("req")
+	retry := time.Second
+	verif.Assert(sock.SetOption(mangos.OptionRetryTime, retry) == nil, lab+"/set-retry")
+	side := vt.Listen(sock, "a")
+	pipes := []*vt.Pipe{side.Peer("p0"), side.Peer("p1")}
+	r := &rctx{name: "sock", sock: sock}
+	if verif.Choice("api", 2) == 1 {
+		c, err := sock.OpenContext()
+		verif.Assert(err == nil, lab+"/open-context")
+		verif.Assert(c.SetOption(mangos.OptionRetryTime, retry) == nil, lab+"/set-retry-ctx")
+		r = &rctx{name: "ctx", c: c}
+	}
+	patterns := [][]int{{0}, {1}, {2}, {0, 1}, {1, 2}, {0, 0, 1}, {2, 2, 1}, {1, 1, 0, 2}}
+	pat := patterns[verif.Choice("pattern", len(patterns))]
+	var oldIDs [][]byte
+	npeer := 2
+	for i := 0; i < R; i++ {
+		tag := byte('A' + i)
+		body := []byte{tag, verif.Byte("payload")}
+		verif.Assert(r.send(body) == nil, lab+"/send")
+		verif.Quiesce()
+		tx := transmissions(pipes, tag)
+		verif.Assert(len(tx) == 1 && len(tx[0].h) == 4, lab+"/request-not-transmitted-exactly-once")
+		if len(tx) != 1 || len(tx[0].h) != 4 {
+			return
+		}
+		id := append([]byte{}, tx[0].h...)
+		for _, o := range oldIDs {
+			verif.Assert(!verif.BytesEq(o, id), lab+"/request-ids-of-different-rounds-equal")
+		}
+		holder := tx[0].pipe
+		switch pat[i%len(pat)] {
+		case 1: // the carrier is lost
+			holder.Drop()
+			verif.Quiesce()
+			tx = transmissions(pipes, tag)
+			verif.Assert(len(tx) == 2, lab+"/no-immediate-resend-after-connection-loss")
+			if len(tx) != 2 {
+				return
+			}
+			for _, t := range tx {
+				if !t.pipe.Closed {
+					holder = t.pipe
+				}
+			}
+			verif.Assert(!holder.Closed, lab+"/resent-to-a-detached-connection")
+			pipes = append(pipes, side.Peer("n"+string(rune('0'+npeer))))
+			npeer++
+		case 2: // the retry timer fires once
+			t0 := tx[0].at
+			verif.Assert(verif.FireTimer(), lab+"/no-retry-timer-pending")
+			tx = transmissions(pipes, tag)
+			verif.Assert(len(tx) == 2, lab+"/retry-timer-did-not-resend")
+			if len(tx) != 2 {
+				return
+			}
+			first := holder
+			for _, t := range tx {
+				if t.at != t0 || t.pipe != first {
+					verif.Assert(t.at >= t0+retry, lab+"/resent-sooner-than-the-retry-time")
+					holder = t.pipe
+				}
+			}
+		}
+		for _, t := range tx {
+			verif.Assert(verif.BytesEq(t.h, id) && verif.BytesEq(t.b, body), lab+"/retransmission-differs-from-the-request")
+		}
+		// a late reply to an earlier round must not be taken for this one
+		var rb []byte
+		var rerr error
+		rg := verif.Go("recv", func() { rb, rerr = r.recvMsg2() })
+		verif.Quiesce()
+		if len(oldIDs) > 0 {
+			o := oldIDs[len(oldIDs)-1]
+			holder.Deliver([]byte{o[0], o[1], o[2], o[3], 'x'})
+			verif.Quiesce()
+			verif.Assert(!rg.Done(), lab+"/late-reply-of-an-earlier-round-delivered")
+		}
+		if rg.Done() {
+			return
+		}
+		holder.Deliver([]byte{id[0], id[1], id[2], id[3], tag + 32})
+		verif.Quiesce()
+		verif.Assert(rg.Done() && rerr == nil && len(rb) == 1 && rb[0] == tag+32, lab+"/reply-not-delivered")
+		verif.Assert(verif.PendingCallbackTimers() == 0, lab+"/retry-timer-survives-the-reply")
+		n := len(transmissions(pipes, tag))
+		verif.RunClockTo(verif.Now() + 3*retry)
+		verif.Assert(len(transmissions(pipes, tag)) == n, lab+"/retransmitted-after-the-reply")
+		oldIDs = append(oldIDs, id)
+	}
+	verif.Reach("cycles-done")
+	sock.Close()
+}
+
+func (r *rctx) recvMsg2() ([]byte, error) {
+	m, err := r.recvMsg()
+	if err != nil {
+		return nil, err
+	}
+	return m.Body, nil
+}
